@@ -31,6 +31,7 @@ func checkC03(c *Check, a *Anchors) {
 	c07SlotPaired(c, a)   // "the invocation ends with a non-zero status": a slot that is not taken back on the failing path blocks the caller's own release for ever
 	c07SlotStates(c, a)
 	cancellationPropagates(c, a)
+	sharedOutcomeCallIndependent(c, a)
 }
 
 // ssaLabel names a call instruction by its (static or interface) callee object.
